@@ -20,14 +20,14 @@ type Agg []Value
 
 // Obj is a heap object.
 type Obj struct {
-	id     int
-	cells  []Value
-	sparse map[int]Value // used when cells == nil (large zero objects)
-	size   int
-	zero   Value // default for sparse
-	pre    bool  // allocated before the current path started (undo-logged)
-	label  string
-	roData bool
+	id           int
+	cells        []Value
+	sparse       map[int]Value // used when cells == nil (large zero objects)
+	size         int
+	zero         Value // default for sparse
+	pre          bool  // allocated before the current path started (undo-logged)
+	label        string
+	roData       bool
 	abstractDict bool
 }
 
